@@ -326,6 +326,24 @@ for _k, _v in _MORE2.items():
     CHECKS[_k]['text'] += _v
 for _k, _v in _MORE3.items():
     CHECKS[_k]['text'] += _v
+_MORE4 = {
+    'C01': ' Added from seed batch 11: a key looked up both in the look-ahead patch and in the committed map it overlays '
+           'is looked up in the patch first (never as the lazy fallback of the committed lookup).',
+    'C03': ' Added from seed batch 11: thread-local cells of the compiler are written only on the way to handing the '
+           'caller a guard whose Drop restores them; no error exit is reachable after the write.',
+    'C06': ' Added from seed batch 11: the tree handed to the emitter is the tree that was validated (same producers, '
+           'validation dominates emission).',
+    'C10': ' Added from seed batch 11: the state and flow writers put every constant key (in particular "flows" and '
+           '"currentFlowName" = current_flow.name) on every successful path, except the tabled optional keys.',
+    'C14': ' Added from seed batch 11: the streaming number reader raises an error of its own only after '
+           'str::parse::<f32> has refused the text.',
+    'C19': ' Added from seed batch 11: components / is_relative of a Path are changed only on a value built in place '
+           '(not a clone, parameter or field), or the cached text is reset.',
+    'C20': ' Added from seed batch 11: the four-digit hex escape of the JSON escaper is reached only for code points '
+           'below U+10000 (or is fed UTF-16 units).',
+}
+for _k, _v in _MORE4.items():
+    CHECKS[_k]['text'] += _v
 
 NOT_APPLICABLE = {
     'C05': 'agreement with the reference compiler on the corpus is a relation between two outputs over 121 inputs and '
